@@ -369,23 +369,36 @@ func verifC14ReflectValue(x *mc.Exec, v reflect.Value) {
 // ---------------------------------------------------------------------------------------------------------------
 // string substitution (FillRandom only produces [A-Za-z0-9+/]{0,31})
 
-var verifC14StringMenu = []string{
-	"a", "ab", "abc", "abcd", "abcde", // every padding length
-	"\"", "\\", "/", "\n", "\t", "\x00", "\x1f", "\x7f", "<>&", "{", "é", " ", " ", "\U0001F600",
-	"\xff", "a\xc0\xafb", "\xed\xa0\x80", // invalid UTF-8 (JSON: base64 form)
-	strings.Repeat("x", 253), strings.Repeat("y", 254), strings.Repeat("z", 255), strings.Repeat("w", 256), strings.Repeat("q", 257),
-	strings.Repeat("L", 70000),
-	"NaN", "base64", "0", "null", "true",
+type verifC14MenuString struct {
+	class string // part of violation signatures
+	s     string
 }
 
+var verifC14StringMenu = func() []verifC14MenuString {
+	var m []verifC14MenuString
+	add := func(class string, ss ...string) {
+		for _, s := range ss {
+			m = append(m, verifC14MenuString{class, s})
+		}
+	}
+	add("plain", "a", "ab", "abc", "abcd", "abcde", "/", "\x7f", "<>&", "{", "\u00e9", "\u00a0", "\U0001F600") // every padding length
+	add("escape", "\"", "\\", "\n", "\t", "\x00", "\x1f", "\u2028", "\u2029")                              // JSONWriteString escapes these
+	add("invalid-utf8", "\xff", "a\xc0\xafb", "\xed\xa0\x80")                                         // JSON: base64 form
+	add("long", strings.Repeat("x", 253), strings.Repeat("y", 254), strings.Repeat("z", 255), strings.Repeat("w", 256), strings.Repeat("q", 257), strings.Repeat("L", 70000))
+	add("keyword", "NaN", "base64", "0", "null", "true")
+	return m
+}()
+
 type verifC14StrLoc struct {
-	set func(s string)
+	kind string // mapkey, mapvalue, field.<Name>: part of violation signatures
+	set  func(s string)
 }
 
 // verifC14StringLocations lists every string-typed location of an object (string and []byte fields, slice elements,
 // map keys and map values), each with a setter.
 func verifC14StringLocations(obj any) []verifC14StrLoc {
 	var out []verifC14StrLoc
+	cur := "value" // name of the innermost struct field being visited
 	var rec func(v reflect.Value)
 	settable := func(v reflect.Value) reflect.Value {
 		if v.CanSet() {
@@ -436,23 +449,48 @@ func verifC14StringLocations(obj any) []verifC14StrLoc {
 						}
 					}
 				}
+				saved := cur
+				cur = "field." + name
 				rec(v.Field(i))
+				cur = saved
 			}
 		case reflect.String:
 			sv := settable(v)
 			if sv.CanSet() {
-				out = append(out, verifC14StrLoc{set: func(s string) { sv.SetString(s) }})
+				out = append(out, verifC14StrLoc{kind: cur, set: func(s string) { sv.SetString(s) }})
 			}
 		case reflect.Slice:
 			if v.Type().Elem().Kind() == reflect.Uint8 {
 				sv := settable(v)
 				if sv.CanSet() {
-					out = append(out, verifC14StrLoc{set: func(s string) { sv.SetBytes([]byte(s)) }})
+					out = append(out, verifC14StrLoc{kind: cur, set: func(s string) { sv.SetBytes([]byte(s)) }})
 				}
 				return
 			}
 			for i := 0; i < v.Len(); i++ {
 				rec(v.Index(i))
+			}
+			// an empty vector of structs with string members (e.g. the byte-slice form of a dictionary): one element
+			// holding the string, everything else default
+			if et := v.Type().Elem(); v.Len() == 0 && et.Kind() == reflect.Struct {
+				sv := settable(v)
+				for j := 0; sv.CanSet() && j < et.NumField(); j++ {
+					j := j
+					ft := et.Field(j)
+					isStr := ft.Type.Kind() == reflect.String || (ft.Type.Kind() == reflect.Slice && ft.Type.Elem().Kind() == reflect.Uint8)
+					if !isStr || !ft.IsExported() {
+						continue
+					}
+					out = append(out, verifC14StrLoc{kind: "field." + ft.Name, set: func(s string) {
+						ns := reflect.MakeSlice(v.Type(), 1, 1)
+						if ft.Type.Kind() == reflect.String {
+							ns.Index(0).Field(j).SetString(s)
+						} else {
+							ns.Index(0).Field(j).SetBytes([]byte(s))
+						}
+						sv.Set(ns)
+					}})
+				}
 			}
 		case reflect.Array:
 			for i := 0; i < v.Len(); i++ {
@@ -463,17 +501,25 @@ func verifC14StringLocations(obj any) []verifC14StrLoc {
 			if !mv.CanSet() || v.Type().Key().Kind() != reflect.String {
 				return
 			}
+			if v.Len() == 0 {
+				// an empty dictionary: one entry with the string as key and a default value
+				out = append(out, verifC14StrLoc{kind: "mapkey", set: func(s string) {
+					nm := reflect.MakeMap(v.Type())
+					nm.SetMapIndex(reflect.ValueOf(s).Convert(v.Type().Key()), reflect.Zero(v.Type().Elem()))
+					mv.Set(nm)
+				}})
+			}
 			keys := v.MapKeys()
 			sort.Slice(keys, func(i, j int) bool { return keys[i].String() < keys[j].String() })
 			for _, k := range keys {
 				k := k
-				out = append(out, verifC14StrLoc{set: func(s string) {
+				out = append(out, verifC14StrLoc{kind: "mapkey", set: func(s string) {
 					val := mv.MapIndex(k)
 					mv.SetMapIndex(k, reflect.Value{})
 					mv.SetMapIndex(reflect.ValueOf(s).Convert(v.Type().Key()), val)
 				}})
 				if v.Type().Elem().Kind() == reflect.String {
-					out = append(out, verifC14StrLoc{set: func(s string) {
+					out = append(out, verifC14StrLoc{kind: "mapvalue", set: func(s string) {
 						mv.SetMapIndex(k, reflect.ValueOf(s).Convert(v.Type().Elem()))
 					}})
 				}
@@ -662,13 +708,20 @@ func VerifC14Run(rep *mc.Report, items []VerifC14Item, bound int, withStrings bo
 				} else {
 					verifC14ReflectFill(x, v)
 				}
+				subst := ""
 				if withStrings && !shared {
 					locs := verifC14StringLocations(v)
 					if len(locs) > 0 {
 						c := x.Choose(1+len(locs)*len(verifC14StringMenu), "string-substitution")
 						if c > 0 {
 							c--
-							locs[c/len(verifC14StringMenu)].set(verifC14StringMenu[c%len(verifC14StringMenu)])
+							l, m := locs[c/len(verifC14StringMenu)], verifC14StringMenu[c%len(verifC14StringMenu)]
+							// a dictionary key that is not UTF-8 has no JSON form (a JSON member name must be a string; the
+							// writer would emit its {"base64":..} object in key position): not representable by design, skipped
+							if !(m.class == "invalid-utf8" && (l.kind == "mapkey" || l.kind == "field.Key")) {
+								l.set(m.s)
+								subst = ":subst=" + l.kind + "/" + m.class
+							}
 						}
 					}
 				}
@@ -718,7 +771,7 @@ func VerifC14Run(rep *mc.Report, items []VerifC14Item, bound int, withStrings bo
 				}
 				sort.Strings(fl)
 				return mc.Verdict{
-					Sig:       "C14:roundtrip:" + it.Family + ":" + it.Name + ":" + variant + ":" + strings.Join(fl, "+"),
+					Sig:       "C14:roundtrip:" + it.Family + ":" + it.Name + ":" + variant + ":" + strings.Join(fl, "+") + subst,
 					Violation: fmt.Sprintf("%s %s (%s variant), value %s: %s", it.Family, it.Name, variant, verifC14Short(canon), verifC14Short(strings.Join(desc, " | "))),
 					Detail:    map[string]any{"item": it.Name, "variant": variant, "value": verifC14Short(canon), "failures": desc},
 				}
